@@ -41,7 +41,8 @@ CLAIMS = {
          "system), CPS, SETEND, SUBS PC,LR (ARM A1/A2, Thumb), ERET, LDM (exception return), RFE, NOP/WFE/WFI by step-level functional "
          "rows for every instruction word and state (User-mode UNKNOWN bits masked); the entry-then-return round trip (SVC, Undefined, "
          "IRQ, FIQ, Data Abort from ARM and Thumb state, handler in ARM or Thumb) as a lemma over the two verified contracts. "
-         "Coprocessor gating, SMC/SVC routing and the mock hint hooks have safety obligations only. Known finding: MRS CPSR in "
+         "Coproc_Accepted() for the generic coprocessors (NSACR/CPACR by privilege and security state, no Virtualization Extensions) as a "
+         "function-level unit; cp14/cp15 gating, SMC/SVC routing and the mock hint hooks have safety obligations only. Known finding: MRS CPSR in "
          "privileged modes returns only the APSR bits (pinned by a test).", "DESIGN.md 10 C12, 14.12"),
  'C13': ("mem_a_with_priv_get/set, mem_u_with_priv_get/set, the six wrappers (sizes 1,2,4,8) and fetch_instruction interpreted over an "
          "abstract translation (any PA, any fault pattern) and an abstract physical hub: per path the exact sequence of translations and "
@@ -97,10 +98,10 @@ CLAIMS = {
          "selected class must own the word in the encoding table (decode.class) or the word is UNPREDICTABLE; every word that ends in the "
          "Undefined Instruction exception without an opcode object is no valid encoding of any table row (decode.total); operand "
          "extraction through the functional equality (post / decode.fields) and UNDEFINED rows never execute (post.unpred); decode "
-         "reads nothing but the word, ITSTATE and C (frame.own + the spec's own dependence). The table holds 565 of the 602 concrete "
+         "reads nothing but the word, ITSTATE and C (frame.own + the spec's own dependence). The table holds a row for every one of the 602 concrete "
          "classes (data-processing, branches, load/store single, dual, multiple, unprivileged, multiply/SIMD/saturating/bit-field, "
          "MRS/MSR/CPS/SETEND/exception return/hints, TBB/TBH functionally; SVC/SMC/UDF/BKPT/IT/barriers/PLD/exclusives as decode-only "
-         "rows); the 37 classes without a row (coprocessor CDP/MCR/MRC/MCRR/MRRC/LDC/STC, Thumb PLD, ENTERX/LEAVEX) "
+         "rows; coprocessor CDP/MCR/MRC/MCRR/MRRC/LDC/STC, Thumb PLD and ENTERX/LEAVEX likewise decode-only). Decode-only classes "
          "are covered by the spec-free obligations only.", "DESIGN.md 14.8"),
  'C07': ("As C06 for Thumb: 58 16-bit cubes (bits 15:10) and 192 32-bit cubes (bits 31:21), inside and outside IT blocks (ITSTATE "
          "symbolic); 32-bit detection by hw1<15:11> is part of the fetch contract proved in C13.", "DESIGN.md 14.8"),
